@@ -124,7 +124,7 @@ func runC20(r *Run, c c20Case) {
 	var reports []c20Report
 	rejectLeft := c.reject
 	consumer := func(kind, id, raw string) error {
-		if c.slow > 0 && kind == "confirmed" {
+		if c.slow > 0 && (kind == "confirmed" || c.pattern == "header-burst-slow-consumer") {
 			time.Sleep(c.slow)
 		}
 		lo, hi := recent()
@@ -219,6 +219,14 @@ func runC20(r *Run, c c20Case) {
 				rpc.StaleBest = 1 + rng.Intn(2)
 			}
 			chain.Mine(1)
+		case "header-burst-slow-consumer":
+			// several blocks, each announced on its own and back to back, while the consumer of a report takes 5 ms
+			for k := 0; k < 2+rng.Intn(3); k++ {
+				chain.Mine(1)
+				if el != nil {
+					el.NotifyTip()
+				}
+			}
 		case "burst":
 			chain.Mine(1 + rng.Intn(4))
 		case "out-of-order-notifications":
@@ -358,9 +366,9 @@ func TestC20(t *testing.T) {
 	txwatcher.VerifSetPolling(time.Millisecond, time.Millisecond)
 	r := newRun(t, "C20", "exploration")
 	defer r.Finish()
-	r.Rule = "the real BlockchainRpcTxWatcher (bitcoind: 3 confirmations, elementsd: 2) and the real LWK Electrum watcher run over facades of the chain simulator that stamp every RPC answer with the chain version; generated block histories: plain, bursts, blocks or reorganisations between the individual RPC calls of one observation pass, reorganisations that unconfirm / re-confirm the tx, stale bestblock answers, transient RPC errors, tx confirmed before the window start, registration after the fact, confirmation right at the window edge, never-broadcast tx, out-of-order header notifications, heights just below 2^32, and a consumer that rejects the first reports. Oracle per report: some chain version among those the watcher's recent answers came from satisfies the reported fact; at most one accepted report per registration; a failure (or confirmation) exists once the window is closed for 3 blocks. distinct = (backend, pattern, kinds of reports, offset, rejections)"
+	r.Rule = "the real BlockchainRpcTxWatcher (bitcoind: 3 confirmations, elementsd: 2) and the real LWK Electrum watcher run over facades of the chain simulator that stamp every RPC answer with the chain version; generated block histories: plain, bursts, blocks or reorganisations between the individual RPC calls of one observation pass, reorganisations that unconfirm / re-confirm the tx, stale bestblock answers, transient RPC errors, tx confirmed before the window start, registration after the fact, confirmation right at the window edge, never-broadcast tx, out-of-order header notifications, several headers announced back to back while the consumer of a report is slow, heights just below 2^32, and a consumer that rejects the first reports. Oracle per report: some chain version among those the watcher's recent answers came from satisfies the reported fact; at most one accepted report per registration; a failure (or confirmation) exists once the window is closed for 3 blocks. distinct = (backend, pattern, kinds of reports, offset, rejections)"
 	r.Assumptions = []string{"the watcher can only have looked at chain versions spanned by its last 14 (rpc) / 6 (electrum) answers before the report", "wall-clock sleeps only give the polling watcher time to run; verdicts depend on version stamps, not on time"}
-	patterns := []string{"plain", "burst", "blocks-between-calls", "reorg", "reorg-between-calls", "stale-bestblock", "transient-errors", "confirmed-before-start", "registered-after-the-fact", "window-edge", "never-broadcast", "out-of-order-notifications", "confirm-late-between-calls"}
+	patterns := []string{"plain", "burst", "blocks-between-calls", "reorg", "reorg-between-calls", "stale-bestblock", "transient-errors", "confirmed-before-start", "registered-after-the-fact", "window-edge", "never-broadcast", "out-of-order-notifications", "confirm-late-between-calls", "header-burst-slow-consumer"}
 	var cases []c20Case
 	reps := r.N(16, 240)
 	i := 0
@@ -369,11 +377,14 @@ func TestC20(t *testing.T) {
 			if be == "electrum" && (p == "stale-bestblock") {
 				continue
 			}
-			if be != "electrum" && p == "out-of-order-notifications" {
+			if be != "electrum" && (p == "out-of-order-notifications" || p == "header-burst-slow-consumer") {
 				continue
 			}
 			for k := 0; k < reps; k++ {
 				c := c20Case{backend: be, pattern: p, seed: r.Seed*7723 + int64(i) + 1, reject: pick(mrand.New(mrand.NewSource(int64(i))), 0, 0, 0, 1, 2)}
+				if p == "header-burst-slow-consumer" {
+					c.slow, c.reject = 5*time.Millisecond, 0
+				}
 				if k%4 == 3 {
 					c.offset = 1<<32 - 1 - 1001 - 200
 					if be == "electrum" {
